@@ -141,7 +141,29 @@ static void gen_bytes(vrng *r, vbuf *d, int *root, int *depth, char *origin, siz
         snprintf(origin, osz, "corpus %s", f->name);
         return;
     }
-    if (kind < 16) { vm_soup(r, d, *root, 1 + (int)vrn(r, 12)); snprintf(origin, osz, "token soup"); return; }
+    if (kind < 15) { vm_soup(r, d, *root, 1 + (int)vrn(r, 12)); snprintf(origin, osz, "token soup"); return; }
+    if (kind == 15) {
+        /* length-prefix family (as in w_verify.c): prefix width x stored length at the signed/unsigned boundaries x payload present for either reading */
+        static const uint32_t LV[] = { 0x00, 0x01, 0x7f, 0x80, 0xff, 0x100, 0x7fff, 0x8000, 0x8001, 0xff80, 0xffff, 0x10000, 0x11170, 0xffff8000u, 0xffffffffu, 0x80000000u };
+        uint32_t un = LV[vrn(r, sizeof LV / sizeof LV[0])];
+        int w = 1 << vrn(r, 3);                       /* 1, 2, 4 */
+        if (w == 1) un &= 0xffu; else if (w == 2) un &= 0xffffu;
+        int where = (int)vrn(r, 4), fill = (int)vrn(r, 3);
+        uint32_t pay = fill == 0 ? un : fill == 1 ? (un & 0xffffu) : 0;
+        if (pay > 80000) pay = 70001;
+        *root = where == 3 ? K_ARR : K_OBJ;
+        vb_u8(d, where == 3 ? 0x42 : 0x40);
+        if (where < 2) { vb_u8(d, 0x14); vb_u8(d, 0x01); vb_u8(d, 'a'); }
+        vb_u8(d, (uint8_t)((where == 1 ? 0x18 : 0x14) + (w == 1 ? 0 : w == 2 ? 1 : 2)));
+        for (int b = 0; b < w; b++) vb_u8(d, (uint8_t)(un >> (8 * b)));
+        for (uint32_t b = 0; b < pay; b++) vb_u8(d, 'x');
+        if (where == 2) vb_u8(d, 0x44);
+        vb_u8(d, where == 3 ? 0x43 : 0x41);
+        if (*depth < 2) *depth = 2;
+        snprintf(origin, osz, "length prefix family: width %d stored 0x%x payload %u", w, (unsigned)un, (unsigned)pay);
+        vw_count("length_prefix_documents", 1);
+        return;
+    }
     vgen g; vg_default(&g, *root);
     g.max_nodes = 3 + (int)vrn(r, vrn(r, 5) ? 24 : 200);
     g.container_permille = 450;
